@@ -7,6 +7,7 @@ import (
 	"fmt"
 	"math/rand"
 	"runtime"
+	"strings"
 	"sync"
 	"time"
 
@@ -112,6 +113,29 @@ func (r *discRun) toAbs(re int) int {
 	return -re - 1
 }
 
+// discGate: the Logger of one member; the first debug line containing `key` that the member emits blocks until the scheduler has
+// delivered what it held back (policy "gate:<member>:<held-back sender>:<key>"): a message handled exactly between two steps of
+// Synchronize (the model's Snap / Check / Query steps are separate actions)
+type discGate struct {
+	scripted.Logger
+	key     string
+	once    sync.Once
+	hit     chan struct{}
+	release chan struct{}
+}
+
+func (g *discGate) Debugf(format string, a ...interface{}) {
+	if strings.Contains(format, g.key) {
+		g.once.Do(func() {
+			close(g.hit)
+			select {
+			case <-g.release:
+			case <-time.After(2 * time.Second):
+			}
+		})
+	}
+}
+
 func (r *discRun) toReal(a int) int {
 	if re, ok := r.real[a]; ok {
 		return re
@@ -183,6 +207,17 @@ func discExec(t int, c discCase) []obj {
 	r.lines = append(r.lines, obj{"t": t, "e": "reset", "cfg": c.Cfg, "seed": c.Seed, "policy": c.Policy, "adv": len(c.Adv)})
 	firstOut := map[int]chan struct{}{}
 	var foMu sync.Mutex
+	// policy "gate:<member>:<sender held back>:<key>"
+	var gate *discGate
+	gateMember, gateHeld := -1, -1
+	if strings.HasPrefix(c.Policy, "gate:") {
+		parts := strings.SplitN(c.Policy, ":", 4)
+		if len(parts) == 4 {
+			fmt.Sscan(parts[1], &gateMember)
+			fmt.Sscan(parts[2], &gateHeld)
+			gate = &discGate{key: parts[3], hit: make(chan struct{}), release: make(chan struct{})}
+		}
+	}
 	members := map[int]*discovery.Member{}
 	for _, m := range c.Members {
 		if isByz[m] {
@@ -195,8 +230,12 @@ func discExec(t int, c discCase) []obj {
 				others = append(others, o)
 			}
 		}
+		var lg discovery.Logger = scripted.Logger{}
+		if gate != nil && m == gateMember {
+			lg = gate
+		}
 		members[m] = &discovery.Member{
-			Membership: membership, ID: uint16(r.real[m]), Logger: scripted.Logger{},
+			Membership: membership, ID: uint16(r.real[m]), Logger: lg,
 			Broadcast: func(msg []byte) {
 				r.logOut(m, others, msg)
 				foMu.Lock()
@@ -275,7 +314,30 @@ func discExec(t int, c discCase) []obj {
 	}
 	advRounds := c.AdvRounds
 	lastRound := time.Now()
+	gateDone := false
 	for nRet < len(c.Starters) && time.Now().Before(hard) {
+		if gate != nil && !gateDone {
+			select {
+			case <-gate.hit:
+				// the gated member sits between two steps of Synchronize: everything the held-back sender has for it arrives now
+				// (the gated member first, then everybody else: the sender was late for all of them)
+				var held []discWire
+				r.mu.Lock()
+				for _, k := range append([][2]int{{gateHeld, gateMember}}, r.order...) {
+					if k[0] == gateHeld && len(r.links[k]) > 0 {
+						held = append(held, r.links[k]...)
+						r.links[k] = nil
+					}
+				}
+				r.mu.Unlock()
+				for _, w := range held {
+					deliver(w.from, w.to, w.data, false)
+				}
+				close(gate.release)
+				gateDone = true
+			default:
+			}
+		}
 		if len(adv) == 0 && advRounds > 0 && time.Since(lastRound) >= time.Duration(c.IntervalUs)*time.Microsecond {
 			adv = append([]discAdv{}, c.Adv...)
 			advRounds--
@@ -285,6 +347,9 @@ func discExec(t int, c discCase) []obj {
 		r.mu.Lock()
 		var nonEmpty [][2]int
 		for _, k := range r.order {
+			if gate != nil && !gateDone && k[0] == gateHeld {
+				continue
+			}
 			if len(r.links[k]) > 0 && k[0] != starve {
 				nonEmpty = append(nonEmpty, k)
 			}
